@@ -579,7 +579,7 @@ func errKey(msg string) string {
 }
 
 func init() {
-	register(&PropDef{ID: "C09", Quick: 600, Thorough: 100000, Profiles: []ProfileDef{{Name: "muxer-origin", Share: 1, Sc: scC09}}})
+	register(&PropDef{ID: "C09", Quick: 1500, Thorough: 100000, Profiles: []ProfileDef{{Name: "muxer-origin", Share: 1, Sc: scC09}}})
 }
 
 // oracleC11LL: in Low-Latency mode the client downloads the preload hint of each successive playlist, and asks
